@@ -19,7 +19,7 @@ NoSeqOver(S) == UNION { UNION { { SV(Ents(f, D, NodeOrder)), SV(Ents(f, D, Rev(N
 NoIdOver(S) == UNION { { SV(<<[id |-> ix[1], seq |-> ix[2]]>> \o Ents(f, D, NodeOrder)) : f \in [D -> S] } :
                        D \in { E \in SUBSET Nodes : Cardinality(E) <= 1 },
                        ix \in {<<NoId, NoSeq>>, <<NoId, MaxSeq>>, <<RootId, MaxSeq>>} }
-Malformed == { [k |-> kk, es |-> <<>>] : kk \in {"empty", "garbage", "nowrapper", "badname", "unsigned"} }
+Malformed == { [k |-> kk, es |-> <<>>] : kk \in {"empty", "garbage", "nowrapper", "badname", "unsigned", "seqlen0", "seqlen3"} }
 
 PacketsFull == PlainOver(0..MaxSeq) \cup NoSeqOver(0..MaxSeq) \cup NoIdOver(0..MaxSeq) \cup Malformed
 PacketsPlain == PlainOver(0..MaxSeq) \cup Malformed
